@@ -18,23 +18,37 @@ type comparison =
 | Lt
 | Gt
 
+val compOpp : comparison -> comparison
+
 val add : nat -> nat -> nat
 
 val mul : nat -> nat -> nat
 
 val sub : nat -> nat -> nat
 
+val eqb : bool -> bool -> bool
+
 module Nat :
  sig
+  val sub : nat -> nat -> nat
+
   val eqb : nat -> nat -> bool
 
   val leb : nat -> nat -> bool
 
   val ltb : nat -> nat -> bool
 
+  val max : nat -> nat -> nat
+
   val min : nat -> nat -> nat
 
   val even : nat -> bool
+
+  val divmod : nat -> nat -> nat -> nat -> nat * nat
+
+  val div : nat -> nat -> nat
+
+  val modulo : nat -> nat -> nat
  end
 
 val tl : 'a1 list -> 'a1 list
@@ -57,11 +71,17 @@ val existsb : ('a1 -> bool) -> 'a1 list -> bool
 
 val forallb : ('a1 -> bool) -> 'a1 list -> bool
 
+val filter : ('a1 -> bool) -> 'a1 list -> 'a1 list
+
 val find : ('a1 -> bool) -> 'a1 list -> 'a1 option
+
+val combine : 'a1 list -> 'a2 list -> ('a1 * 'a2) list
 
 val firstn : nat -> 'a1 list -> 'a1 list
 
 val skipn : nat -> 'a1 list -> 'a1 list
+
+val seq : nat -> nat -> nat list
 
 val repeat : 'a1 -> nat -> 'a1 list
 
@@ -73,6 +93,11 @@ type positive =
 type n =
 | N0
 | Npos of positive
+
+type z =
+| Z0
+| Zpos of positive
+| Zneg of positive
 
 module Pos :
  sig
@@ -114,6 +139,12 @@ module Coq_Pos :
   val compare : positive -> positive -> comparison
 
   val eqb : positive -> positive -> bool
+
+  val iter_op : ('a1 -> 'a1 -> 'a1) -> positive -> 'a1 -> 'a1
+
+  val to_nat : positive -> nat
+
+  val of_succ_nat : nat -> positive
  end
 
 module N :
@@ -143,6 +174,47 @@ module N :
   val div : n -> n -> n
 
   val modulo : n -> n -> n
+
+  val to_nat : n -> nat
+
+  val of_nat : nat -> n
+ end
+
+module Z :
+ sig
+  val double : z -> z
+
+  val succ_double : z -> z
+
+  val pred_double : z -> z
+
+  val pos_sub : positive -> positive -> z
+
+  val add : z -> z -> z
+
+  val opp : z -> z
+
+  val sub : z -> z -> z
+
+  val mul : z -> z -> z
+
+  val compare : z -> z -> comparison
+
+  val leb : z -> z -> bool
+
+  val ltb : z -> z -> bool
+
+  val eqb : z -> z -> bool
+
+  val max : z -> z -> z
+
+  val min : z -> z -> z
+
+  val abs : z -> z
+
+  val to_nat : z -> nat
+
+  val of_N : n -> z
  end
 
 type 'a res =
@@ -300,7 +372,15 @@ val h_run : uData -> hist -> hop list -> hist * hout list
 
 val file_version_v2 : n list
 
+val max_line : n
+
 val indent_max : nat
+
+val default_tab_stop : nat
+
+val default_indent_size : nat
+
+val default_completion_prompt_limit : nat
 
 val default_break_chars : n list
 
@@ -831,3 +911,635 @@ val lb_apply : uData -> (str -> str list) -> lbop -> lbret m
 val lb_run :
   uData -> (str -> str list) -> lbop list -> lb -> ((lbret * lb) * event
   list) option list
+
+type change =
+| UBegin
+| UEnd
+| UInsert of nat * str
+| UDelete of nat * str
+| UReplace of nat * str * str
+
+type changeset = { cs_level : nat; cs_undos : change list }
+
+val cs_new : changeset
+
+val cs_begin : changeset -> changeset * nat
+
+val cs_end_loop : nat -> change list -> bool -> change list * bool
+
+val cs_end : changeset -> changeset * bool
+
+val cs_insert : uData -> changeset -> nat -> n -> changeset
+
+val cs_insert_str : changeset -> nat -> str -> changeset
+
+val single_char : uData -> (str -> str list) -> str -> bool
+
+val cs_delete :
+  uData -> (str -> str list) -> changeset -> nat -> str -> changeset
+
+val cs_replace : changeset -> nat -> str -> str -> changeset
+
+val cs_notify : uData -> (str -> str list) -> changeset -> event -> changeset
+
+val cs_notify_all :
+  uData -> (str -> str list) -> changeset -> event list -> changeset
+
+val change_undo : change -> lb -> lb res
+
+val cs_undo_loop :
+  change list -> lb -> nat -> nat -> z -> bool -> ((change list * lb) * bool)
+  res
+
+val cs_undo : changeset -> lb -> nat -> ((changeset * lb) * bool) res
+
+val trunc_level : change list -> nat -> nat
+
+val cs_truncate : changeset -> nat -> changeset
+
+val cs_last_insert_go : change list -> str option
+
+val cs_last_insert : changeset -> str option
+
+type kr_action =
+| KAKill
+| KAYank of nat
+| KAOther
+
+type kr_mode =
+| KAppend
+| KPrepend
+
+type killring = { kr_slots : str list; kr_cap : nat; kr_index : nat;
+                  kr_last : kr_action; kr_killing : bool }
+
+val kr_new : nat -> killring
+
+val kr_reset : killring -> killring
+
+val list_set : 'a1 list -> nat -> 'a1 -> 'a1 list
+
+val kr_kill : killring -> str -> kr_mode -> killring res
+
+val kr_yank : killring -> killring * str option
+
+val kr_yank_pop : killring -> killring * (nat * str) option
+
+val kr_notify : killring -> event -> killring res
+
+val kr_notify_all : killring -> event list -> killring res
+
+type pos2 = { p_col : nat; p_row : nat }
+
+val p0 : pos2
+
+val pos2_eqb : pos2 -> pos2 -> bool
+
+type layout = { l_prompt_size : pos2; l_default_prompt : bool;
+                l_cursor : pos2; l_end : pos2 }
+
+val layout0 : layout
+
+val wcwidth : uData -> str -> nat
+
+val gwidth : uData -> str -> nat -> nat * nat
+
+val calc_go : uData -> nat -> nat -> str list -> pos2 -> nat -> pos2
+
+val calculate_position :
+  uData -> (str -> str list) -> nat -> nat -> str -> pos2 -> pos2
+
+val layout_width : uData -> str -> nat
+
+val compute_layout :
+  uData -> (str -> str list) -> nat -> nat -> pos2 -> bool -> str -> str ->
+  str option -> layout
+
+val digits_fuel : nat -> nat -> str -> str
+
+val dec : nat -> str
+
+val eSC : n
+
+val csi : nat -> n -> str
+
+val clear_old_rows : layout -> str
+
+val ends_with_lf : str -> bool
+
+val refresh_bytes : str -> str -> str -> str option -> layout -> layout -> str
+
+val move_one_or_n : nat -> n -> str
+
+val move_cursor_bytes : pos2 -> pos2 -> str
+
+type keycode =
+| KChar of n
+| KBackspace
+| KBackTab
+| KDelete
+| KDown
+| KEnd
+| KEnter
+| KEsc
+| KF of nat
+| KHome
+| KInsert
+| KLeft
+| KNull
+| KPageDown
+| KPageUp
+| KRight
+| KTab
+| KUp
+| KUnknown
+| KPasteStart
+| KPasteEnd
+
+type mods = { m_ctrl : bool; m_alt : bool; m_shift : bool }
+
+type key = keycode * mods
+
+val m_NONE : mods
+
+val m_CTRL : mods
+
+val m_ALT : mods
+
+val m_CTRL_ALT : mods
+
+val mods_eqb : mods -> mods -> bool
+
+val mods_empty : mods -> bool
+
+val with_ctrl : mods -> mods
+
+val with_alt : mods -> mods
+
+val no_shift : mods -> mods
+
+val keycode_eqb : keycode -> keycode -> bool
+
+val key_eqb : key -> key -> bool
+
+val key_new : uData -> n -> mods -> key
+
+val is_digit : n -> bool
+
+val assoc_key : n list -> (n list * key) list -> key option
+
+val k_UNKNOWN : key
+
+val lookup_key : n list -> (n list * key) list -> key
+
+val tab_csi_ansi : (n list * key) list
+
+val tab_csi_linux : (n list * key) list
+
+val tab_ext_tilde : (n list * key) list
+
+val tab_ext_2d_tilde : (n list * key) list
+
+val tab_ext_2d_mod_tilde : (n list * key) list
+
+val tab_ext_3d_tilde : (n list * key) list
+
+val tab_ext_1_mod : (n list * key) list
+
+val tab_ext_mod_tilde : (n list * key) list
+
+val tab_ext_rxvt : (n list * key) list
+
+val tab_ss3 : (n list * key) list
+
+type anchor =
+| AAfter
+| ABefore
+
+type cmd =
+| CAbort
+| CAcceptLine
+| CBeginningOfHistory
+| CCapitalizeWord
+| CClearScreen
+| CComplete
+| CCompleteBackward
+| CCompleteHint
+| CDedent of movement
+| CDowncaseWord
+| CEndOfFile
+| CEndOfHistory
+| CForwardSearchHistory
+| CHistorySearchBackward
+| CHistorySearchForward
+| CIndent of movement
+| CInsert of nat * str
+| CInterrupt
+| CKill of movement
+| CMove of movement
+| CNextHistory
+| CNoop
+| CRepaint
+| COverwrite of n
+| CPreviousHistory
+| CQuotedInsert
+| CReplaceChar of nat * n
+| CReplace of movement * str option
+| CReverseSearchHistory
+| CSelfInsert of nat * n
+| CSuspend
+| CTransposeChars
+| CTransposeWords of nat
+| CUndo of nat
+| CUnknown
+| CUpcaseWord
+| CViYankTo of movement
+| CYank of nat * anchor
+| CYankPop
+| CLineUpOrPreviousHistory of nat
+| CLineDownOrNextHistory of nat
+| CNewline
+| CAcceptOrInsertLine of bool
+
+val is_char_motion : movement -> bool
+
+val should_reset_kill_ring : cmd -> bool
+
+val is_repeatable_change : cmd -> bool
+
+val is_repeatable : cmd -> bool
+
+val rc : nat -> nat option -> nat
+
+val mvt_redo : movement -> nat option -> movement
+
+val cs_opposite : char_search -> char_search
+
+type inchar =
+| Ch of n
+| Bad
+
+type istream = { in_cur : inchar list; in_rest : inchar list list }
+
+type rerr =
+| EEof
+| EInvalidData
+| EInterrupted
+| EValidator
+| EHangup
+
+type edit_mode =
+| Emacs
+| Vi
+
+type input_mode =
+| IMCommand
+| IMInsert
+| IMReplace
+
+type completion_type =
+| CTCircular
+| CTList
+
+type vresult =
+| VRValid of str option
+| VRInvalid of str option
+| VRIncomplete
+| VRError
+
+type observation = { o_line : str; o_pos : nat; o_mode : input_mode;
+                     o_n : nat; o_positive : bool; o_hint : str option }
+
+type config = { c_mode : edit_mode; c_completion : completion_type;
+                c_timeout_none : bool; c_cols : nat; c_tab_stop : nat;
+                c_indent_size : nat; c_prompt_limit : nat;
+                c_has_helper : bool;
+                c_complete : (str -> nat -> nat * str list);
+                c_hint : (str -> nat -> str option);
+                c_validate : (str -> vresult);
+                c_bindings : (key list * cmd) list; c_veof : key;
+                c_vintr : key; c_vquit : key; c_vsusp : key }
+
+type est = { e_line : lb; e_changes : changeset; e_kr : killring;
+             e_hist : str list; e_hidx : nat; e_saved : (str * nat);
+             e_hint : str option; e_layout : layout; e_prompt : str;
+             e_prompt_size : pos2; i_input_mode : input_mode; i_num_args : 
+             z; i_last_cmd : cmd; i_last_cs : char_search option;
+             e_inp : istream; e_out : n list list; e_obs : observation list }
+
+type 'a eres =
+| EOk of 'a * est
+| EErr of rerr * est
+| EPanic
+| EFuel
+
+type 'a e = est -> 'a eres
+
+val eret : 'a1 -> 'a1 e
+
+val ebind : 'a1 e -> ('a1 -> 'a2 e) -> 'a2 e
+
+val eget : est e
+
+val efail : rerr -> 'a1 e
+
+val epanic : 'a1 e
+
+val efuel : 'a1 e
+
+val upd_line : (lb -> lb) -> unit e
+
+val set_line : lb -> unit e
+
+val set_changes : changeset -> unit e
+
+val set_kr : killring -> unit e
+
+val set_hidx : nat -> unit e
+
+val set_saved : (str * nat) -> unit e
+
+val set_hint : str option -> unit e
+
+val set_layout : layout -> unit e
+
+val set_input_mode : input_mode -> unit e
+
+val set_num_args : z -> unit e
+
+val set_last_cmd : cmd -> unit e
+
+val set_last_cs : char_search option -> unit e
+
+val set_inp : istream -> unit e
+
+val write : str -> unit e
+
+val observe : observation -> unit e
+
+val seg : uData -> str -> str list
+
+val cols : config -> nat
+
+val take_char : inchar list -> inchar list list -> (inchar * istream) option
+
+val next_char : n e
+
+type ptimeout =
+| TZero
+| TForever
+| THundred
+
+val poll : ptimeout -> bool e
+
+val cfg_timeout : config -> ptimeout
+
+val add_alt : key -> key
+
+val escape_o : key e
+
+val extended_escape : n -> key e
+
+val escape_csi : key e
+
+val do_escape_sequence : uData -> config -> bool -> key e
+
+val next_key : uData -> config -> bool -> key e
+
+val replace_crlf : str -> str
+
+val read_pasted : uData -> config -> nat -> str -> str e
+
+val stream_size : istream -> nat
+
+val calc : uData -> config -> str -> pos2 -> pos2
+
+val line_before : lb -> str
+
+val line_after : lb -> str
+
+val update_hint : config -> unit e
+
+val refresh : uData -> config -> str -> pos2 -> bool -> str option -> unit e
+
+val refresh_line : uData -> config -> unit e
+
+val refresh_line_with_msg : uData -> config -> str option -> unit e
+
+val refresh_prompt_and_line : uData -> config -> str -> unit e
+
+val move_cursor : uData -> config -> unit e
+
+val move_cursor_to_end : unit e
+
+val lb_changes : uData -> 'a1 m -> 'a1 e
+
+val lb_quiet : 'a1 m -> 'a1 e
+
+val lb_kill : uData -> 'a1 m -> 'a1 e
+
+val changes_begin : nat e
+
+val changes_end : bool e
+
+val is_emacs0 : config -> bool
+
+val cwidth : uData -> n -> nat
+
+val edit_insert : uData -> config -> n -> nat -> unit e
+
+val edit_replace_char : uData -> config -> n -> nat -> unit e
+
+val edit_overwrite_char : uData -> config -> n -> unit e
+
+val edit_yank : uData -> config -> str -> anchor -> nat -> unit e
+
+val edit_yank_pop : uData -> config -> nat -> str -> unit e
+
+val moved : uData -> config -> bool m -> unit e
+
+val edit_kill : uData -> config -> movement -> unit e
+
+val edit_insert_text : uData -> config -> str -> unit e
+
+val grouped : uData -> config -> bool m -> unit e
+
+val layout_w : uData -> str -> nat
+
+val edit_move_line_up : uData -> config -> nat -> bool e
+
+val edit_move_line_down : uData -> config -> nat -> bool e
+
+val hlen_e : est -> nat
+
+val backup : unit e
+
+val restore : uData -> unit e
+
+val edit_history_next : uData -> config -> bool -> unit e
+
+val edit_history : uData -> config -> bool -> unit e
+
+val beep : unit e
+
+val hist_of : est -> hist
+
+val edit_history_search : uData -> config -> sdir -> unit e
+
+val validate : uData -> config -> vresult e
+
+val hint_of : est -> str option
+
+val find_binding : key list -> (key list * cmd) list -> cmd option
+
+val is_proper_prefix : key list -> key list -> bool
+
+val has_descendant : config -> key list -> bool
+
+val custom_binding : config -> key -> nat -> bool -> cmd option e
+
+val custom_seq_binding :
+  uData -> config -> nat -> key list -> (cmd option * key list) e
+
+val term_binding : config -> key -> cmd option e
+
+val last_insert : str option e
+
+val cmd_redo : cmd -> nat option -> cmd e
+
+val i16_sat : z -> z
+
+val take_num_args : z e
+
+val emacs_num_args : (nat * bool) e
+
+val vi_num_args : nat e
+
+val arg_prompt : z -> str
+
+val digit_val : n -> z
+
+val is_plain_or_alt : mods -> bool
+
+val emacs_digit_loop : uData -> config -> nat -> bool -> key e
+
+val emacs_digit_argument : uData -> config -> nat -> n -> key e
+
+val vi_arg_digit_loop : uData -> config -> nat -> key e
+
+val vi_arg_digit : uData -> config -> nat -> n -> key e
+
+val has_hint_at_end : bool e
+
+val kc : n -> mods -> key
+
+val common : uData -> config -> nat -> key -> nat -> bool -> cmd e
+
+val is_ctrl_or_ctrl_alt : mods -> bool
+
+val emacs : uData -> config -> nat -> key -> cmd e
+
+val vi_char_search : uData -> config -> n -> char_search option e
+
+val is_fFtT : n -> bool
+
+val sat_mul_u16 : nat -> nat -> nat
+
+val vi_cmd_motion : uData -> config -> nat -> key -> nat -> movement option e
+
+val doing_insert : unit e
+
+val done_inserting : unit e
+
+val vi_command : uData -> config -> nat -> key -> cmd e
+
+val vi_insert : uData -> config -> nat -> key -> cmd e
+
+val next_cmd : uData -> config -> nat -> bool -> cmd e
+
+type status =
+| Proceed
+| Submit
+
+val complete_hint_line : uData -> config -> unit e
+
+val is_default_prompt : est -> bool
+
+val starts_with_ws : uData -> str -> bool
+
+val execute : uData -> config -> cmd -> status e
+
+val lcp2 : str -> str -> str
+
+val lcp_all : str list -> str option
+
+val completer_update : uData -> nat -> str -> unit e
+
+val complete_circular :
+  uData -> config -> nat -> nat -> str list -> (str * nat) -> nat -> nat ->
+  cmd option e
+
+val msg_display_all : nat -> str
+
+val page_completions_simple : uData -> config -> str list -> cmd option e
+
+val wait_yn : uData -> config -> nat -> cmd -> cmd e
+
+val complete_line : uData -> config -> nat -> cmd option e
+
+val search_prompt : bool -> str -> str
+
+val isearch_loop :
+  uData -> config -> nat -> (str * nat) -> nat -> str -> nat -> sdir -> bool
+  -> cmd option e
+
+val incremental_search : uData -> config -> nat -> cmd option e
+
+type outcome =
+| OLine of str
+| OEof
+| OInterrupted
+| OInvalidData
+| OValidatorError
+| OHangup
+| OPanic
+| OOutOfFuel
+
+val main_loop : uData -> config -> nat -> unit e
+
+val initial_state :
+  uData -> config -> str -> str list -> killring -> istream -> est
+
+val read_line :
+  uData -> config -> str -> (str * str) option -> str list -> killring ->
+  istream -> outcome * est option
+
+val script_complete : str list -> str -> nat -> nat * str list
+
+val script_hint : str list -> str -> nat -> str option
+
+val contains : str -> str -> bool
+
+val script_validate : str -> vresult
+
+val msg_unclosed : n -> str
+
+val msg_unpaired : n -> str
+
+val brackets_v : str -> n list -> vresult
+
+type vkind =
+| VKNone
+| VKBrackets
+| VKScript
+
+val mk_config :
+  edit_mode -> completion_type -> bool -> nat -> bool -> str list -> str list
+  -> vkind -> (key list * cmd) list -> config
+
+type read_result = { rr_outcome : outcome; rr_obs : observation list;
+                     rr_out : n list list }
+
+val run_reads :
+  uData -> config -> str -> (str * str) option -> str list -> killring ->
+  istream -> nat -> read_result list
